@@ -552,7 +552,7 @@ def drive_cg(ck, rng, dn, thorough):
                             continue
                         if (mkind.startswith("jacobi") and not jacobi_ok) or (mkind == "approx-inverse" and not minv_ok):
                             continue
-                        x0kind = ("none", "random", "zero", "near-solution")[int(rng.integers(4))]
+                        x0kind = ("none", "random", "zero", "near-solution", "sparse-guess")[int(rng.integers(5))]
                         tol = (1e-5, 1e-5, 1e-3, 1e-8 if dn == "f64" else 1e-4)[int(rng.integers(4))]
                         bscale = float(rng.choice([1e-3, 1.0, 1e3]))
                         b = rnd(rng.standard_normal((n, 1)) * bscale, dn)
@@ -572,6 +572,15 @@ def drive_cg(ck, rng, dn, thorough):
                             x0 = tt(rng.standard_normal((n, 1)) * bscale / smax * 3, dn)
                         elif x0kind == "zero":
                             x0 = torch.zeros(n, 1, dtype=DT[dn])
+                        elif x0kind == "sparse-guess":
+                            # a guess with exact zeros among its entries: a unit vector / a zero-padded solution of a smaller problem
+                            g0 = rng.standard_normal((n, 1)) * bscale / smax * 3
+                            g0[rng.random((n, 1)) < 0.5] = 0.0
+                            if not g0.any():
+                                g0[int(rng.integers(n)), 0] = bscale / smax
+                            if n > 1:
+                                g0[int(rng.integers(n)), 0] = 0.0
+                            x0 = tt(g0, dn)
                         else:
                             x0 = tt(np.linalg.solve(A, b) * (1 + 1e-3 * rng.standard_normal((n, 1))), dn)
                         x0_before = None if x0 is None else x0.clone()
@@ -867,7 +876,7 @@ def run(ck):
         ck.require(f"ls/batch-rank{r}")
     for mk in ("none", "jacobi-dense", "jacobi-same-layout", "approx-inverse"):
         ck.require(f"cg/M:{mk}")
-    for xk in ("none", "random", "zero", "near-solution"):
+    for xk in ("none", "random", "zero", "near-solution", "sparse-guess"):
         ck.require(f"cg/x0:{xk}")
     for a in LAYOUTS:
         for b in LAYOUTS:
